@@ -1,20 +1,27 @@
 import PysnarkModel.Spec.Native
 import PysnarkModel.Driver.Proto
 /-!
-# Line protocol for structured programs (C09): `BL|id|p=..,bl=..|x:v,x:v|v,v|tokens`
+# Line protocol for structured programs (C09): `BL|id|p=..,bl=..|init|v,v|m/e,m/e|tokens`
 
-Fields: configuration, initial tracked variables (`name:value`, each becomes a `PrivVal`), secret
-inputs, and the program in prefix notation (tokens separated by blanks):
+Fields: configuration, initial tracked variables, secret integer inputs, secret fixed-point inputs
+(`m/e` is the float `m / 2^e`), and the program in prefix notation (tokens separated by blanks).
+The older form without the fixed-point field (`BL|id|cfg|x:v,x:v|v,v|tokens`, integers only) is
+still accepted.
 
-* expressions: `v3` variable, `i0` input, `c-2` constant, `l1` loop variable, `+ a b`, `- a b`, `* a b`
-* conditions: `lt a b` (`le eq ne gt ge`)
-* statements: `A x e` assign · `T x cond e1 e2` thunked `if_then_else` · `I cond { … } rest` with
-  rest `E` (endif) | `L { … }` (else) | `F cond { … } rest` (elif) · `R lv bound mx { … }` for ·
-  `W cond mx { … } N` / `W cond mx { … } B cond` while without / with a break condition
+* initial variables: blank-separated `name value` pairs, a value being `i3` (`PrivVal(3)`), `b1`
+  (`PrivVal(1) == 1`), `x6/2` (`PrivValFxp(6 / 2^2)`) or `[ value … ]`
+* expressions: `v3` variable, `i0` input, `f0` fixed-point input, `c-2` constant, `l1` loop variable,
+  `+ a b`, `- a b`, `* a b`, comparisons `lt a b` (`le eq ne gt ge`), `not a`, `and a b`, `or a b`,
+  `[ e … ]` list, `@ e 2` element with a public index
+* statements: `A x e` assign · `P x i,j e` element assignment `_.x[i][j] = e` · `Q x cond e1 e2`
+  `if_then_else` on evaluated values · `T x cond e1 e2` thunked `if_then_else` ·
+  `I cond { … } rest` with rest `E` (endif) | `L { … }` (else) | `F cond { … } rest` (elif) ·
+  `R lv bound mx { … }` for · `W cond mx { … } N` / `W cond mx { … } B cond` while without / with a
+  break condition
 
-Answer: `id|ok|x=L:value:lc;…|<state as in Proto.stStr>|NAT=…` or `id|err:<Class>`.
-`NAT` is the native run of `Spec/Native.lean` (`x=value;…` in sorted order, `raise` or
-`uncapped`).  Not part of the verified model.
+Answer: `id|ok|x=<value as Proto.valStr>;…|<state as in Proto.stStr>|STACK=n|NAT=…` or
+`id|err:<Class>|NAT=…`.  `NAT` is the native run of `Spec/Native.lean` (`x=value;…` in sorted order,
+numbers as reduced fractions, `raise`, `uncapped` or `inexact`).  Not part of the verified model.
 -/
 namespace Pysnark.ProtoBlock
 open Pysnark Pysnark.Proto
@@ -26,31 +33,59 @@ def cmp? : String → Option Cmp
 def num? (t : String) (pre : Char) : Option Nat :=
   if t.front == pre then (t.drop 1).toNat? else none
 
+mutual
 def parseE : Nat → List String → Option (BExpr × List String)
   | 0, _ => none
   | _, [] => none
   | fuel+1, t :: r =>
-    if t == "+" || t == "-" || t == "*" then do
+    if t == "+" || t == "-" || t == "*" || t == "and" || t == "or" then do
       let (a, r) ← parseE fuel r
       let (b, r) ← parseE fuel r
-      pure ((if t == "+" then BExpr.add a b else if t == "-" then .sub a b else .mul a b), r)
-    else if t.front == 'c' then (t.drop 1).toInt?.map fun c => (.const c, r)
-    else if t.front == 'v' then (num? t 'v').map fun n => (.var n, r)
-    else if t.front == 'i' then (num? t 'i').map fun n => (.inp n, r)
-    else if t.front == 'l' then (num? t 'l').map fun n => (.loopvar n, r)
-    else none
+      pure ((if t == "+" then BExpr.add a b else if t == "-" then .sub a b else if t == "*" then .mul a b
+             else if t == "and" then .and a b else .or a b), r)
+    else if t == "not" then do
+      let (a, r) ← parseE fuel r
+      pure (.not a, r)
+    else if t == "[" then do
+      let (es, r) ← parseEs fuel r
+      pure (.list es, r)
+    else if t == "@" then do
+      let (a, r) ← parseE fuel r
+      match r with
+      | i :: r => do pure (.item a (← i.toNat?), r)
+      | [] => none
+    else match cmp? t with
+    | some op => do
+      let (a, r) ← parseE fuel r
+      let (b, r) ← parseE fuel r
+      pure (.cmp op a b, r)
+    | none =>
+      if t.front == 'c' then (t.drop 1).toInt?.map fun c => (.const c, r)
+      else if t.front == 'v' then (num? t 'v').map fun n => (.var n, r)
+      else if t.front == 'i' then (num? t 'i').map fun n => (.inp n, r)
+      else if t.front == 'f' then (num? t 'f').map fun n => (.finp n, r)
+      else if t.front == 'l' then (num? t 'l').map fun n => (.loopvar n, r)
+      else none
 
-def parseC (fuel : Nat) : List String → Option (BCond × List String)
-  | [] => none
-  | t :: r => do
-    let op ← cmp? t
-    let (a, r) ← parseE fuel r
-    let (b, r) ← parseE fuel r
-    pure (⟨op, a, b⟩, r)
+/-- `e* ]` -/
+def parseEs : Nat → List String → Option (BExprs × List String)
+  | 0, _ => none
+  | _, [] => none
+  | fuel+1, t :: r =>
+    if t == "]" then some (.nil, r) else do
+      let (e, r) ← parseE fuel (t :: r)
+      let (es, r) ← parseEs fuel r
+      pure (.cons e es, r)
+end
+
+def parseC (fuel : Nat) (toks : List String) : Option (BCond × List String) := parseE fuel toks
 
 def expect (tok : String) : List String → Option (List String)
   | t :: r => if t == tok then some r else none
   | [] => none
+
+def path? (t : String) : Option (List Nat) :=
+  ((t.splitOn ",").filter (· ≠ "")).mapM (·.toNat?)
 
 mutual
 def parseS : Nat → List String → Option (BStmt × List String)
@@ -64,14 +99,22 @@ def parseS : Nat → List String → Option (BStmt × List String)
         let (e, r) ← parseE fuel r
         pure (.assign x e, r)
       | [] => none
-    else if t == "T" then
+    else if t == "P" then
+      match r with
+      | x :: p :: r => do
+        let x ← num? x 'v'
+        let p ← path? p
+        let (e, r) ← parseE fuel r
+        pure (.setitem x p e, r)
+      | _ => none
+    else if t == "T" || t == "Q" then
       match r with
       | x :: r => do
         let x ← num? x 'v'
         let (c, r) ← parseC fuel r
         let (a, r) ← parseE fuel r
         let (b, r) ← parseE fuel r
-        pure (.ite x c a b, r)
+        pure ((if t == "T" then BStmt.ite x c a b else .sel x c a b), r)
       | [] => none
     else if t == "I" then do
       let (c, r) ← parseC fuel r
@@ -137,39 +180,112 @@ def parseR : Nat → List String → Option (BIfRest × List String)
     else none
 end
 
-def init? (t : String) : Option (List (Nat × Int)) :=
-  ((t.splitOn ",").filter (· ≠ "")).mapM fun kv =>
-    match kv.splitOn ":" with
-    | [k, v] => do pure (← k.toNat?, ← v.toInt?)
-    | _ => none
+/-- `m/e`: the float `m / 2^e` -/
+def flt? (t : String) : Option (Int × Nat) :=
+  match t.splitOn "/" with
+  | [m, e] => do pure (← m.toInt?, ← e.toNat?)
+  | _ => none
+
+mutual
+/-- an initial value: `i3`, `b1`, `x6/2`, `[ value … ]` -/
+def parseI : Nat → List String → Option (IVal × List String)
+  | 0, _ => none
+  | _, [] => none
+  | fuel+1, t :: r =>
+    if t == "[" then do
+      let (ts, r) ← parseIs fuel r
+      pure (.node ts, r)
+    else if t.front == 'i' then (t.drop 1).toInt?.map fun v => (.leaf (.int v), r)
+    else if t.front == 'b' then (t.drop 1).toInt?.map fun v => (.leaf (.bool v), r)
+    else if t.front == 'x' then (flt? (t.drop 1).toString).map fun me => (.leaf (.fxp me.1 me.2), r)
+    else none
+def parseIs : Nat → List String → Option (List IVal × List String)
+  | 0, _ => none
+  | _, [] => none
+  | fuel+1, t :: r =>
+    if t == "]" then some ([], r) else do
+      let (v, r) ← parseI fuel (t :: r)
+      let (vs, r) ← parseIs fuel r
+      pure (v :: vs, r)
+end
+
+def parseInit : Nat → List String → Option (List (Nat × IVal))
+  | 0, _ => none
+  | _, [] => some []
+  | fuel+1, x :: r => do
+    let x ← x.toNat?
+    let (v, r) ← parseI fuel r
+    let rest ← parseInit fuel r
+    pure ((x, v) :: rest)
+
+/-- both forms of the initial variables: `x:v,x:v` (integers) and `x value x value …` -/
+def init? (t : String) : Option (List (Nat × IVal)) :=
+  if t.contains ':' then
+    ((t.splitOn ",").filter (· ≠ "")).mapM fun kv =>
+      match kv.splitOn ":" with
+      | [k, v] => do pure (← k.toNat?, PTree.leaf (ILeaf.int (← v.toInt?)))
+      | _ => none
+  else
+    let ts := (t.splitOn " ").filter (· ≠ "")
+    parseInit (ts.length + 2) ts
 
 def ints? (t : String) : Option (List Int) :=
   ((t.splitOn ",").filter (· ≠ "")).mapM (·.toInt?)
 
-def varsStr (p : Int) (vs : Vals) : String :=
-  ";".intercalate (vs.map fun kv => s!"{kv.1}=L:{kv.2.v.value}:{canonLC p kv.2.v.lc}")
+def flts? (t : String) : Option (List (Int × Nat)) :=
+  ((t.splitOn ",").filter (· ≠ "")).mapM flt?
 
-def natStr : NM NEnv → String
+mutual
+def tvalToVal : TVal → Val
+  | .leaf o => o.toVal
+  | .node ts => .list (tvalsToVals ts)
+def tvalsToVals : List TVal → List Val
+  | [] => []
+  | t :: ts => tvalToVal t :: tvalsToVals ts
+end
+
+def varsStr (p : Int) (vs : Vals) : String :=
+  ";".intercalate (vs.map fun kv => s!"{kv.1}={valStr p (tvalToVal kv.2)}")
+
+/-- the rational `m / 2^r` as Python prints a `Fraction` -/
+partial def fracStr (m : Int) (r : Nat) : String :=
+  if r > 0 && m % 2 == 0 then fracStr (m / 2) (r - 1)
+  else if r == 0 then toString m else s!"{m}/{2 ^ r}"
+
+partial def nvalStr (r : Nat) : NVal → String
+  | .leaf (.int n) => toString n
+  | .leaf (.fx m) => fracStr m r
+  | .node ts => "[" ++ ",".intercalate (ts.map (nvalStr r)) ++ "]"
+
+def natStr (r : Nat) : NM NEnv → String
   | .error .name => "raise"
+  | .error .type => "raise"
+  | .error .inexact => "inexact"
   | .error .uncapped => "uncapped"
   | .ok env =>
     let arr := env.toArray.qsort (fun a b => a.1 < b.1)
-    ";".intercalate (arr.toList.map fun kv => s!"{kv.1}={kv.2}")
+    ";".intercalate (arr.toList.map fun kv => s!"{kv.1}={nvalStr r kv.2}")
+
+def runCase (id : String) (s0 : St) (ini : List (Nat × IVal)) (inp : List Int) (finp : List (Int × Nat)) (toks : String) : String :=
+  let ts := (toks.splitOn " ").filter (· ≠ "")
+  match parseB (ts.length + 2) ts with
+  | some (prog, []) =>
+    let nat := natStr s0.resolution (nativeRunT s0.resolution ini inp finp prog)
+    match runBlockT ini inp finp prog s0 with
+    | .ok (bs, s) => s!"{id}|ok|{varsStr s.p bs.bv.vals}|{stStr s}|STACK={bs.stack.length}|NAT={nat}"
+    | .error e => s!"{id}|err:{e.name}|NAT={nat}"
+  | _ => s!"{id}|bad-program"
 
 def handleBlock (fields : List String) : String :=
   match fields with
   | [id, cfg, init, inputs, toks] =>
     match cfg? (cfg ++ ",res=8,ign=0"), init? init, ints? inputs with
-    | some s0, some ini, some inp =>
-      let ts := (toks.splitOn " ").filter (· ≠ "")
-      match parseB (ts.length + 2) ts with
-      | some (prog, []) =>
-        let nat := natStr (nativeRun ini inp prog)
-        match runBlock ini inp prog s0 with
-        | .ok (bs, s) => s!"{id}|ok|{varsStr s.p bs.bv.vals}|{stStr s}|STACK={bs.stack.length}|NAT={nat}"
-        | .error e => s!"{id}|err:{e.name}|NAT={nat}"
-      | _ => s!"{id}|bad-program"
+    | some s0, some ini, some inp => runCase id s0 ini inp [] toks
     | _, _, _ => s!"{id}|bad-case"
+  | [id, cfg, init, inputs, finputs, toks] =>
+    match cfg? (cfg ++ ",res=8,ign=0"), init? init, ints? inputs, flts? finputs with
+    | some s0, some ini, some inp, some finp => runCase id s0 ini inp finp toks
+    | _, _, _, _ => s!"{id}|bad-case"
   | _ => "bad-line"
 
 end Pysnark.ProtoBlock
